@@ -217,6 +217,25 @@ def guarded_check(prop, case, ctx):
                 json.dumps(case, default=str)[:600], "".join(traceback.format_exception(type(e), e, e.__traceback__))))
 
 
+def guarded_call(ctx, fn, *args):
+    """Run one piece of an exhaustive enumeration; an exception escaping from the code under test is a finding
+    (the enumeration goes on), an exception of the harness itself is a HarnessError."""
+    try:
+        return fn(*args)
+    except HarnessError:
+        raise
+    except Exception as e:  # noqa
+        inx, _ = _in_xfab(e.__traceback__)
+        if not inx:
+            raise HarnessError("harness exception in exhaustive part:\n%s" % "".join(traceback.format_exception(type(e), e, e.__traceback__)))
+        frames = traceback.extract_tb(e.__traceback__)
+        xroot = os.path.join(REPO, "xfab") + os.sep
+        last = [f for f in frames if os.path.realpath(f.filename).startswith(xroot)][-1]
+        ctx.fail("exception/%s/%s" % (type(e).__name__, last.name),
+                 "unexpected %s in %s:%d: %s" % (type(e).__name__, os.path.basename(last.filename), last.lineno, e))
+        return None
+
+
 class _Found(Exception):
     pass
 
